@@ -180,6 +180,38 @@ def prop_alias_inplace(case, stats):
     _cmp(got, ref2, 'x %s= %s-view of x vs the binary expression' % (case['op'][1:], case['view']), stats)
 
 
+def prop_alias_setitem(case, stats):
+    """x[dst] = x[src] with overlapping views of the same object equals the assignment of an independent copy"""
+    x = UTPM(case['x'].copy())
+    y = UTPM(case['x'].copy())
+    dst, src = case['dst'], case['src']
+    rhs = x[src]
+    rhs_copy = UTPM(y[src].data.copy())
+    guard(operator.setitem, y, dst, rhs_copy)
+    guard(operator.setitem, x, dst, rhs)
+    _cmp(x, y, 'x[%r] = x[%r] vs assigning an independent copy' % (dst, src), stats)
+
+
+@st.composite
+def alias_setitem_cases(draw, tier):
+    D, P = draw(gen.dims(Dmax=4, Pmax=3))
+    n = draw(st.integers(3, 6))
+    rank2 = draw(st.booleans())
+    shape = (n, draw(st.integers(1, 3))) if rank2 else (n,)
+    x = draw(gen.utpm_data(D, P, shape, gen.nice_floats(-2, 2)))
+    k = draw(st.integers(1, n - 1))
+    form = draw(st.integers(0, 3))
+    if form == 0:
+        dst, src = slice(0, n - k), slice(k, n)          # shift down (overlapping)
+    elif form == 1:
+        dst, src = slice(k, n), slice(0, n - k)          # shift up (overlapping)
+    elif form == 2:
+        dst, src = slice(None), slice(None, None, -1)    # reverse in place
+    else:
+        dst, src = slice(None), draw(st.integers(0, n - 1))   # broadcast one entry/row over everything
+    return {'x': x, 'dst': dst, 'src': src, 'view': 'setitem-form-%d' % form}
+
+
 @st.composite
 def alias_binary_cases(draw, tier, op):
     D, P = draw(gen.dims(Dmax=5 if tier == 'quick' else 7, Pmax=3))
@@ -257,4 +289,6 @@ def buckets(tier):
     for op in INPLACE:
         bl.append(Bucket('alias-inplace:' + op, (lambda op=op: alias_inplace_cases(tier, op)), prop_alias_inplace,
                          {'quick': 60, 'thorough': 1200}, nontrivial=_nt_alias, classes=_cl_alias))
+    bl.append(Bucket('alias-setitem', (lambda: alias_setitem_cases(tier)), prop_alias_setitem, {'quick': 60, 'thorough': 1200},
+                     nontrivial=_nt_alias, classes=_cl_alias))
     return bl
